@@ -1,7 +1,6 @@
 """C05 - Frame is a fixed-width unsigned bit vector under all operations.
 
-E1 explicit-state: the state of a Frame is (width, value) (checked: vars() holds nothing
-else).  From EVERY state of widths 1..W every operation of the alphabet is applied to the
+E1 explicit-state: the state of a Frame is (width, value).  From EVERY state of widths 1..W every operation of the alphabet is applied to the
 real object and to a list-of-bits reference model; successors stay inside the state set
 (width never changes, 0 <= value < 2^width is asserted after every transition), so by
 closure every finite history over these widths is covered, not only depth-k ones.
@@ -62,11 +61,31 @@ def shards(tier):
 
 
 def _inv(fr, w, res, case, what):
-    ok = set(vars(fr).keys()) == {"_bits", "_data", "_error"} and fr._bits == w and len(fr) == w \
-        and isinstance(fr._data, int) and 0 <= fr._data < (1 << w)
+    """Width unchanged and value in range, read through the public views only."""
+    n = fr.as_integer
+    ok = len(fr) == w and isinstance(n, int) and 0 <= n < (1 << w)
     if not ok:
-        add_violation(res, "C05:invariant", f"after {what}: vars={vars(fr)} width {w}", case)
+        add_violation(res, "C05:invariant", f"after {what}: len {len(fr)} value {n!r}, width {w}", case)
     return ok
+
+
+def _warm(fr):
+    """Read every view once, so that anything an implementation may cache is populated
+    before the mutation under test."""
+    fr.as_integer, fr.pack, fr.as_byte_sequence, str(fr), len(fr)
+    try:
+        fr.pack_len(2)
+    except OverflowError:
+        pass
+    return fr
+
+
+def _views(fr, w, v, F):
+    """All public views of the frame must show (w, v)."""
+    nb = (w + 7) // 8
+    exp = v.to_bytes(nb, "big")
+    return (len(fr) == w and fr.as_integer == v and fr.pack == exp and fr.as_byte_sequence == list(exp)
+            and fr == F(w, v) and not (fr != F(w, v)) and str(fr) == str(F(w, v)))
 
 
 def _expect_exc(res, fn, exc, fr, w, v, key, case):
@@ -79,8 +98,8 @@ def _expect_exc(res, fn, exc, fr, w, v, key, case):
         add_violation(res, f"C05:{key}:wrong-exception", f"{case}: raised {e!r}, documented {exc}", case)
     else:
         add_violation(res, f"C05:{key}:accepted", f"{case}: returned {r!r}, expected {exc}", case)
-    if fr._data != v or fr._bits != w:
-        add_violation(res, f"C05:{key}:mutated-on-reject", f"{case}: frame changed to {fr._data:#x}", case)
+    if fr.as_integer != v or len(fr) != w or fr.pack != v.to_bytes((w + 7) // 8, "big"):
+        add_violation(res, f"C05:{key}:mutated-on-reject", f"{case}: frame changed to {fr.as_integer:#x}", case)
     res["transitions"] += 1
     res["distinct"].add((key, "rejected"))
 
@@ -95,7 +114,7 @@ def explore_state(F, w, v, res, idxs, values_for, small_frames, eq_states, packl
     _inv(f, w, res, base, "construction")
     # construction from a byte sequence gives the same state
     g = F(w, bytes(ref.bytes_be()))
-    if not (g == f and g._data == v):
+    if not (g == f and g.as_integer == v):
         add_violation(res, "C05:ctor-bytes", f"Frame({w}, bytes) != Frame({w}, int {v})", dict(base, op="ctor-bytes"))
     res["transitions"] += 1
     # ---- views ------------------------------------------------------------------
@@ -140,11 +159,12 @@ def explore_state(F, w, v, res, idxs, values_for, small_frames, eq_states, packl
             res["transitions"] += 1
             res["distinct"].add(("getbit", got))
             for val in (0, 1, True, False, "x", "", None, 2, [0]):
-                h = mk()
+              for warm in (True, False):
+                h = _warm(mk()) if warm else mk()
                 h[i] = val
                 exp = v | (1 << i) if val else v & ~(1 << i)
-                if h._data != exp:
-                    add_violation(res, "C05:setbit", f"Frame({w},{v:#x})[{i}]={val!r} -> {h._data:#x}",
+                if not _views(h, w, exp, F):
+                    add_violation(res, "C05:setbit", f"Frame({w},{v:#x})[{i}]={val!r} (views read before: {warm}) -> views show {h.as_integer:#x}/{h.pack!r}, expected {exp:#x}",
                                   dict(base, op="setbit", i=i, val=repr(val)))
                 _inv(h, w, res, case, "setbit")
                 res["transitions"] += 1
@@ -185,7 +205,7 @@ def explore_state(F, w, v, res, idxs, values_for, small_frames, eq_states, packl
             res["transitions"] += 1
             res["distinct"].add(("getslice", n))
             for val in values_for(n):
-                h = mk()
+                h = _warm(mk()) if (val & 1) else mk()      # alternate: views read before the write or not
                 wcase = dict(base, op="setslice", a=a, b=b, val=val)
                 if val < 0 or val >= (1 << n):
                     def wr4():
@@ -197,8 +217,8 @@ def explore_state(F, w, v, res, idxs, values_for, small_frames, eq_states, packl
                 for k in range(n):
                     nb[lo + k] = (val >> k) & 1
                 expv = sum(x << i for i, x in enumerate(nb))
-                if h._data != expv:
-                    add_violation(res, "C05:setslice", f"Frame({w},{v:#x})[{a}:{b}]={val:#x} -> {h._data:#x} expected {expv:#x}", wcase)
+                if not _views(h, w, expv, F):
+                    add_violation(res, "C05:setslice", f"Frame({w},{v:#x})[{a}:{b}]={val:#x} -> views show {h.as_integer:#x}/{h.pack!r} expected {expv:#x}", wcase)
                 _inv(h, w, res, wcase, "setslice")
                 res["transitions"] += 1
             res["distinct"].add(("setslice", n))
@@ -223,10 +243,10 @@ def explore_state(F, w, v, res, idxs, values_for, small_frames, eq_states, packl
         g = F(w2, v2)
         s = f + g
         case = dict(base, op="add", w2=w2, v2=v2)
-        if len(s) != w + w2 or s._data != (v << w2) | v2 or type(s) is not framemod.Frame:
-            add_violation(res, "C05:add", f"Frame({w},{v:#x})+Frame({w2},{v2:#x}) -> {len(s)},{s._data:#x}", case)
+        if len(s) != w + w2 or s.as_integer != (v << w2) | v2 or type(s) is not framemod.Frame:
+            add_violation(res, "C05:add", f"Frame({w},{v:#x})+Frame({w2},{v2:#x}) -> {len(s)},{s.as_integer:#x}", case)
         _inv(s, w + w2, res, case, "add")
-        if f._data != v or g._data != v2:
+        if f.as_integer != v or g.as_integer != v2:
             add_violation(res, "C05:add-mutates", "operand changed by +", case)
         res["transitions"] += 1
     res["distinct"].add(("add", "ok"))
@@ -244,7 +264,7 @@ def explore_state(F, w, v, res, idxs, values_for, small_frames, eq_states, packl
             add_violation(res, "C05:eq-nonframe", f"frame == {other!r} not False", dict(base, op="eq-nonframe", other=repr(other)))
         res["transitions"] += 1
     res["distinct"].add(("eq", "ok"))
-    if f._data != v:
+    if not _views(f, w, v, F):
         add_violation(res, "C05:read-mutates", "a read-only operation changed the frame", base)
     res["states"] += 1
     res["evaluations"] += 1
